@@ -69,6 +69,35 @@ impl Engine for NetEngine {
         "netsim"
     }
     fn run_case(&self, case: &NetCase) -> CaseReport {
+        // The simulation runs on a thread of its own under a real-time limit. It lives in virtual time and
+        // takes milliseconds (a spin that keeps polling the simulated transport is cut off after 5 s and is
+        // inconclusive); a thread that has not come back after 60 s sits in a loop that never returns to
+        // the executor and never touches the transport - library code polling something in a loop. The
+        // thread cannot be stopped; it is left behind.
+        let (tx, rx) = std::sync::mpsc::channel();
+        let (prop, c2) = (self.prop, case.clone());
+        let spawned = std::thread::Builder::new().name("netsim-case".into()).spawn(move || {
+            let _ = tx.send(NetEngine { prop }.run_inner(&c2));
+        });
+        if spawned.is_err() {
+            return self.run_inner(case);
+        }
+        match rx.recv_timeout(std::time::Duration::from_secs(60)) {
+            Ok(rep) => rep,
+            Err(_) => {
+                let mut rep = CaseReport::default();
+                rep.violate(
+                    format!("{}/simulation-never-returns", self.prop),
+                    "the simulation (virtual time, normally milliseconds) did not come back within 60 s of real time and never tripped the transport-poll guard: some task spins without yielding and without touching its transport, the runtime thread stands still and nothing completes".to_string(),
+                );
+                rep
+            }
+        }
+    }
+}
+
+impl NetEngine {
+    fn run_inner(&self, case: &NetCase) -> CaseReport {
         let mut rep = CaseReport::default();
         let _ = crate::panichook::take_all();
         let obs = match run_net_case(case) {
@@ -203,8 +232,27 @@ impl Engine for NetEngine {
                 if spawned != finished {
                     rep.violate("C07/connection-task-never-finishes", format!("server s{s}: {spawned} connection tasks spawned, {finished} finished although the signal fired at {t_sig} ms and every request ended long ago; {:?}", obs.fault_log));
                 }
-                if case.faults.iter().any(|f| f.kind % 10 == 7 && f.server as usize % nsrv == s && (f.at as u64) < t_sig) {
+                if case.faults.iter().any(|f| f.kind == 7 && f.server as usize % nsrv == s && (f.at as u64) < t_sig) {
                     rep.class("idle-connection-open-at-signal");
+                }
+                // a pipelined request whose handler started before the signal gets its complete response
+                // although the next request is already waiting in the connection's read buffer
+                if let Some((_, _, _, t_start)) = obs.pipe_started.iter().find(|(ps, _, seq, _)| *ps == s && *seq == 1) {
+                    if *t_start < t_sig {
+                        rep.class("pipelined-request-in-flight-at-signal");
+                        match obs.pipe_received.iter().find(|(ps, _, _)| *ps % nsrv == s) {
+                            Some((_, bytes, t_end)) => {
+                                let text = String::from_utf8_lossy(bytes);
+                                if !(text.starts_with("HTTP/1.1 200") && text.contains("pipelined-1")) {
+                                    rep.violate(
+                                        "C07/in-flight-request-lost/pipelined-request-unanswered",
+                                        format!("server s{s}: the handler of a pipelined request started at {t_start} ms, before the signal at {t_sig} ms, but its client received {:?} until the connection ended at {t_end} ms", &text[..text.len().min(80)]),
+                                    );
+                                }
+                            }
+                            None => rep.violate("C07/in-flight-request-lost/pipelined-request-unanswered", format!("server s{s}: the pipelining client of a request started at {t_start} ms never saw its connection end")),
+                        }
+                    }
                 }
                 for (conn, t_acc) in &obs.accepted[s] {
                     if *t_acc > t_sig {
@@ -305,7 +353,7 @@ impl Engine for NetEngine {
                 rep.class("handler-error");
             }
             for f in &case.faults {
-                rep.class(["fault-cancelled-connect", "fault-disconnect", "fault-garbage", "fault-truncated-head", "fault-truncated-body", "fault-mid-response", "fault-partial-preface", "holder", "fault-degenerate-pipe", "fault-crowd"][f.kind as usize % 10]);
+                rep.class(["fault-cancelled-connect", "fault-disconnect", "fault-garbage", "fault-truncated-head", "fault-truncated-body", "fault-mid-response", "fault-partial-preface", "holder", "fault-degenerate-pipe", "fault-crowd", "fault-pipelining-client"][f.kind as usize % 11]);
             }
             rep.nontrivial = in_flight_during_fault && obs.probes.iter().all(|(_, o)| matches!(o, ClientOutcome::Ok { .. }));
         }
@@ -503,7 +551,14 @@ pub fn c07_strategy(max_reqs: usize) -> impl Strategy<Value = NetCase> {
             proptest::collection::vec(req_strategy(n, false, false), 0..=max_reqs),
             0..n,
             // (the high bit of arg: over TLS the holder completes the handshake before it idles)
-            proptest::collection::vec((0..n, 0u16..90, 0u16..24, any::<bool>()).prop_map(|(server, at, arg, hs)| FaultSpec { server, at, kind: 7, arg: arg | if hs { 0x8000 } else { 0 } }), 0..3),
+            proptest::collection::vec(
+                prop_oneof![
+                    3 => (0..n, 0u16..90, 0u16..24, any::<bool>()).prop_map(|(server, at, arg, hs)| FaultSpec { server, at, kind: 7, arg: arg | if hs { 0x8000 } else { 0 } }),
+                    // a raw client that pipelines two HTTP/1 requests, the first one slow (not over TLS)
+                    1 => (0..n, 0u16..90, 0u16..40).prop_map(|(server, at, arg)| FaultSpec { server, at, kind: 10, arg }),
+                ],
+                0..3,
+            ),
         )
             .prop_map(move |(reqs, srv, mut faults)| {
                 // an HTTP/1 connection that has received part of a request head is, for hyper, an
@@ -514,10 +569,13 @@ pub fn c07_strategy(max_reqs: usize) -> impl Strategy<Value = NetCase> {
                 // HTTP/2-only servers either.
                 faults.retain(|f| servers[f.server as usize % servers.len()] % 3 != 1);
                 for f in faults.iter_mut() {
-                    if servers[f.server as usize % servers.len()] % 3 == 0 {
+                    if f.kind == 7 && servers[f.server as usize % servers.len()] % 3 == 0 {
                         f.arg &= 0x8000;
                     }
                 }
+                // at most one pipelining client per server (its answer is matched by server)
+                let mut seen_pipe = std::collections::BTreeSet::new();
+                faults.retain(|f| f.kind != 10 || seen_pipe.insert(f.server as usize % servers.len()));
                 NetCase {
             servers: servers.clone(),
             reqs,
